@@ -287,3 +287,24 @@ Example C20_example_history :
               {| q_inp := "c"; q_out := "/o"; q_text := "ok" |}]) = ["/w"; "/w"; "/w"]
   /\ model_input_source (Some "/w/A.txt") [""; "/w/B.txt"; "/w/o.out"] = Some "/w/A.txt".
 Proof. vm_compute. split; reflexivity. Qed.
+
+(* ================= the report file after a history of runs ================= *)
+
+(* the report is written truncate-then-write: after ANY history of successful runs (any entry point, any order, any
+   paths) the file at P holds exactly one report - that of the last run that targeted P; paths nobody wrote stay absent *)
+Theorem C20_report_file_is_last_run : forall (runs : list (string * N)) (p : string),
+  fs_lookup p (after_runs false runs) = option_map (fun id => [id]) (last_run_to p runs).
+Proof. exact report_file_is_last_run. Qed.
+Print Assumptions C20_report_file_is_last_run.
+
+(* in append mode a second run onto an existing path leaves the old report followed by the new one *)
+Theorem C20_report_file_append_refuted :
+  exists runs p, last_run_to p runs = Some 2%N /\ fs_lookup p (after_runs true runs) = Some [1%N; 2%N]
+                 /\ fs_lookup p (after_runs false runs) = Some [2%N].
+Proof. exact report_file_append_counterexample. Qed.
+Print Assumptions C20_report_file_append_refuted.
+
+Example C20_example_report_file :
+  report_file_check [("/w/a.out", 1%N); ("/w/b.out", 7%N); ("/w/a.out", 3%N)] "/w/a.out" [3%N] = true
+  /\ last_run_to "/w/a.out" [("/w/a.out", 1%N); ("/w/b.out", 7%N); ("/w/a.out", 3%N)] = Some 3%N.
+Proof. vm_compute. split; reflexivity. Qed.
